@@ -1,8 +1,10 @@
 import Xo.Model.Refs
+import Xo.Lemmas.Refs
 import Xo.Lemmas.LayoutRT
 import Xo.Lemmas.Path
 import Xo.Props.C11
 import Xo.Props.C04
+import Xo.Lemmas.RefGraphOps
 /-! C08 — references alias, null and survive buffer growth as documented (property theorems only).
 Slot-level theorems for every slot address, target address and memory; the fresh-and-disjoint placement of referents created
 from plain data or foreign objects is the allocator theorem C04_alloc.  The history-level invariant "every non-null reference
@@ -11,98 +13,24 @@ every generated history (construction, binding of existing / foreign / plain / n
 namespace Lay
 open MemS
 
-theorem i64of_i64le (i : Int) (h1 : -(2 ^ 63 : Int) ≤ i) (h2 : i < 2 ^ 63) : i64of (i64le i) = i := by
-  unfold i64of i64le
-  rw [fromLE_le]
-  have hpos : (0 : Int) ≤ i % (2 ^ 64 : Int) := Int.emod_nonneg _ (by decide)
-  have hlt : i % (2 ^ 64 : Int) < 2 ^ 64 := Int.emod_lt_of_pos _ (by decide)
-  have hn : ((i % (2 ^ 64 : Int)).toNat : Int) = i % (2 ^ 64 : Int) := Int.toNat_of_nonneg hpos
-  have hnlt : (i % (2 ^ 64 : Int)).toNat < 256 ^ 8 := by
-    have : ((i % (2 ^ 64 : Int)).toNat : Int) < 2 ^ 64 := by rw [hn]; exact hlt
-    have h256 : (256 : Nat) ^ 8 = 2 ^ 64 := by decide
-    omega
-  rw [Nat.mod_eq_of_lt hnlt]
-  simp only []
-  by_cases hi : 0 ≤ i
-  · have : i % (2 ^ 64 : Int) = i := Int.emod_eq_of_lt hi (by omega)
-    have hsmall : ¬ (i % (2 ^ 64 : Int)).toNat ≥ 2 ^ 63 := by
-      have : ((i % (2 ^ 64 : Int)).toNat : Int) = i := by rw [hn, this]
-      omega
-    simp only [hsmall, ↓reduceIte]
-    rw [hn, this]
-  · have hneg : i < 0 := by omega
-    have : i % (2 ^ 64 : Int) = i + 2 ^ 64 := by
-      have h := Int.emod_emod_of_dvd i (Int.dvd_refl (2 ^ 64 : Int))
-      have : (i + 2 ^ 64) % (2 ^ 64 : Int) = i % (2 ^ 64 : Int) := by simp
-      rw [← this]; exact Int.emod_eq_of_lt (by omega) (by omega)
-    have hbig : (i % (2 ^ 64 : Int)).toNat ≥ 2 ^ 63 := by
-      have : ((i % (2 ^ 64 : Int)).toNat : Int) = i + 2 ^ 64 := by rw [hn, this]
-      omega
-    simp only [hbig, ↓reduceIte]
-    rw [hn, this]; omega
-
-theorem i64le_length (i : Int) : (i64le i).length = 8 := by simp [i64le, le_length]
-
 /-- **null**: `None` is stored as `-2^63` and reads back as `None`; for a union reference the member index is `-1` -/
 theorem C08_null (m : Mem) (slot : Nat) (hb : slot + 8 ≤ m.length) :
-    deref (writeAt m slot refNullBytes) slot = none := by
-  unfold deref refNullBytes
-  have := readAt_writeAt_same m slot (i64le NULLV) (by rw [i64le_length]; exact hb)
-  rw [i64le_length] at this
-  rw [this, i64of_i64le NULLV (by decide) (by decide)]
-  simp
+    deref (writeAt m slot refNullBytes) slot = none := deref_write_null m slot hb
 
 theorem C08_union_null (m : Mem) (slot : Nat) (hb : slot + 16 ≤ m.length) :
-    deref (writeAt m slot urefNullBytes) slot = none ∧ memberIdx (writeAt m slot urefNullBytes) slot = -1 := by
-  have hl : urefNullBytes.length = 16 := by simp [urefNullBytes, i64le_length]
-  have hw := readAt_writeAt_same m slot urefNullBytes (by rw [hl]; exact hb)
-  rw [hl] at hw
-  have h1 : readAt (writeAt m slot urefNullBytes) slot 8 = i64le NULLV := by
-    have := readAt_readAt (writeAt m slot urefNullBytes) slot 16 0 8 (by omega)
-    rw [Nat.add_zero] at this
-    rw [← this, hw]; simp [urefNullBytes, readAt, i64le_length]
-  have h2 : readAt (writeAt m slot urefNullBytes) (slot + 8) 8 = i64le (-1) := by
-    have := readAt_readAt (writeAt m slot urefNullBytes) slot 16 8 8 (by omega)
-    rw [← this, hw]; simp [urefNullBytes, readAt, i64le_length]
-    exact List.take_of_length_le (by rw [i64le_length]; exact Nat.le_refl 8)
-  constructor
-  · unfold deref; rw [h1, i64of_i64le NULLV (by decide) (by decide)]; simp
-  · unfold memberIdx; rw [h2, i64of_i64le (-1) (by decide) (by decide)]
+    deref (writeAt m slot urefNullBytes) slot = none ∧ memberIdx (writeAt m slot urefNullBytes) slot = -1 :=
+  uref_write_null m slot hb
 
 /-- **alias**: binding an object that lives at `target` in the same buffer stores `target - slot`; the reference then denotes
 that very address - so every read and write through the reference is a read or write of the original's bytes -/
 theorem C08_alias (m : Mem) (slot target : Nat) (hb : slot + 8 ≤ m.length) (hs : slot < 2 ^ 62) (ht : target < 2 ^ 62) :
-    deref (writeAt m slot (refBytes slot target)) slot = some target := by
-  unfold deref refBytes
-  have := readAt_writeAt_same m slot (i64le ((target : Int) - (slot : Int))) (by rw [i64le_length]; exact hb)
-  rw [i64le_length] at this
-  rw [this, i64of_i64le _ (by omega) (by omega)]
-  have hne : ((target : Int) - (slot : Int)) ≠ NULLV := by unfold NULLV; omega
-  simp only [hne, ↓reduceIte]
-  congr 1; omega
+    deref (writeAt m slot (refBytes slot target)) slot = some target := deref_write_ref m slot target hb hs ht
 
 theorem C08_union_member (m : Mem) (slot target member : Nat) (hb : slot + 16 ≤ m.length) (hs : slot < 2 ^ 62)
     (ht : target < 2 ^ 62) (hm : member < 2 ^ 62) :
     deref (writeAt m slot (urefBytes slot target member)) slot = some target ∧
-    memberIdx (writeAt m slot (urefBytes slot target member)) slot = (member : Int) := by
-  have hl : (urefBytes slot target member).length = 16 := by simp [urefBytes, refBytes, i64le_length]
-  have hw := readAt_writeAt_same m slot (urefBytes slot target member) (by rw [hl]; exact hb)
-  rw [hl] at hw
-  have h1 : readAt (writeAt m slot (urefBytes slot target member)) slot 8 = i64le ((target : Int) - (slot : Int)) := by
-    have := readAt_readAt (writeAt m slot (urefBytes slot target member)) slot 16 0 8 (by omega)
-    rw [Nat.add_zero] at this
-    rw [← this, hw]; simp [urefBytes, refBytes, readAt, i64le_length]
-  have h2 : readAt (writeAt m slot (urefBytes slot target member)) (slot + 8) 8 = i64le (member : Int) := by
-    have := readAt_readAt (writeAt m slot (urefBytes slot target member)) slot 16 8 8 (by omega)
-    rw [← this, hw]; simp [urefBytes, refBytes, readAt, i64le_length]
-    exact List.take_of_length_le (by rw [i64le_length]; exact Nat.le_refl 8)
-  constructor
-  · unfold deref
-    rw [h1, i64of_i64le _ (by omega) (by omega)]
-    have hne : ((target : Int) - (slot : Int)) ≠ NULLV := by unfold NULLV; omega
-    simp only [hne, ↓reduceIte]
-    congr 1; omega
-  · unfold memberIdx; rw [h2, i64of_i64le _ (by omega) (by omega)]
+    memberIdx (writeAt m slot (urefBytes slot target member)) slot = (member : Int) :=
+  uref_write_member m slot target member hb hs ht hm
 
 /-- **growth**: a reference is a function of its slot's bytes and address only; growth copies the old contents to the same
 offsets of larger storage, so every reference denotes the same offset afterwards -/
@@ -140,17 +68,6 @@ theorem C08_copy_fresh (s : Alloc.AState) (live : List Alloc.Region) (size : Nat
   let r := Alloc.C04_alloc s live size true o s' hinv h
   ⟨r.1, r.2.2.2.1⟩
 
-/-- a slot whose 8 bytes are the encoding of `target - slot` denotes `target`, in any memory -/
-theorem deref_of_bytes (m : Mem) (slot target : Nat) (hs : slot < 2 ^ 62) (ht : target < 2 ^ 62)
-    (h : readAt m slot 8 = refBytes slot target) : deref m slot = some target := by
-  unfold deref
-  rw [h]
-  unfold refBytes
-  rw [i64of_i64le _ (by omega) (by omega)]
-  have hne : ((target : Int) - (slot : Int)) ≠ NULLV := by unfold NULLV; omega
-  simp only [hne, ↓reduceIte]
-  congr 1; omega
-
 /-- **alias, at value level**: let a reference slot (anywhere outside the referent) denote an object `vB : tB` that the memory holds
 at `offB`. Then the referent read through the reference is `vB`; and storing a scalar element of the referent - through the
 reference, through the original handle or through any other reference to it: they all compute the same address - makes every one
@@ -180,8 +97,219 @@ theorem C08_alias_value (tB : Ty) (vB : Val) (hw : tB.WF) (hc : Conf tB vB) (hsz
     exact hf (slot + i) (by omega)
   · simp [hi]
 
+/-! ### histories of a heap of nodes linked by references (`Xo/Model/RefGraph.lean`, executed against the library as component `rg`)
+
+Universe: any list of node classes, a class being a static struct of 8-byte scalars, `Ref[Class]` and `UnionRef[Class, …]` fields.
+History: any finite sequence of construct / bind-to-existing / bind-to-value (= bind-to-foreign-object: a new node in the holder's
+buffer) / bind-to-null / write-through-original / write-through-ref / other allocations / growth, from any initial capacity,
+power-of-two alignment and grow step.  The only hypothesis is that addresses stay below 2^62 (they are stored as int64). -/
+
+/-- **every non-null reference resolves to a live object of the recorded member type inside its own buffer, and keeps doing so
+however much the buffer later grows** - the invariant `RG.Inv` (allocator invariant with the nodes as live regions; every reference
+slot of every live node is null, with member index -1 for a union, or denotes the START of a live node whose class is the declared
+class / the class the stored member index names) holds after every history -/
+theorem C08_ref_history (u : RG.Univ) (hu : RG.UWF u) (cap k : Nat) (gs : Option Nat) (ops : List RG.Op)
+    (hcap : (ops.foldl (RG.step u) (RG.initSt cap (2 ^ k) gs)).b.a.capacity < 2 ^ 62) :
+    RG.Inv u (ops.foldl (RG.step u) (RG.initSt cap (2 ^ k) gs)) :=
+  RG.history_inv hu ops _ (RG.init_inv u cap k gs (Nat.lt_of_le_of_lt (RG.fold_cap u ops (RG.initSt cap (2 ^ k) gs)) hcap)) hcap
+
+/-- the same, spelled out for a reader: in every reachable state, whatever a reference field of a live node holds, what
+`Ref._from_buffer` / `UnionRef._from_buffer` decode from its bytes is null or the address of a live node `t` of the class the
+reader will assume, which lies inside the buffer's storage and shares no byte with any other live region -/
+theorem C08_refs_resolve (u : RG.Univ) (hu : RG.UWF u) (cap k : Nat) (gs : Option Nat) (ops : List RG.Op)
+    (hcap : (ops.foldl (RG.step u) (RG.initSt cap (2 ^ k) gs)).b.a.capacity < 2 ^ 62)
+    (e : RG.Ent) (he : e ∈ (ops.foldl (RG.step u) (RG.initSt cap (2 ^ k) gs)).live)
+    (kf : Nat) (fk : RG.FK) (a : Nat) (hf : RG.fieldAt u e kf = some (fk, a)) (hfk : fk ≠ .scal) (t : Nat)
+    (hd : deref (ops.foldl (RG.step u) (RG.initSt cap (2 ^ k) gs)).b.mem a = some t) :
+    ∃ c, RG.refClass (ops.foldl (RG.step u) (RG.initSt cap (2 ^ k) gs)) fk a = some c ∧
+      ∃ et ∈ (ops.foldl (RG.step u) (RG.initSt cap (2 ^ k) gs)).live, et.addr = t ∧ et.cls = some c ∧
+        t + et.size ≤ (ops.foldl (RG.step u) (RG.initSt cap (2 ^ k) gs)).b.mem.length ∧
+        (∃ cl, u[c]? = some cl ∧ et.size = RG.csize cl) ∧
+        ∀ e' ∈ (ops.foldl (RG.step u) (RG.initSt cap (2 ^ k) gs)).live, e' ≠ et →
+          Alloc.Disjoint (et.addr, et.size) (e'.addr, e'.size) := by
+  have hi := C08_ref_history u hu cap k gs ops hcap
+  generalize ops.foldl (RG.step u) (RG.initSt cap (2 ^ k) gs) = s at *
+  have hr := hi.refs e he kf fk a hf
+  have fin : ∀ c, RG.IsObj s t c → ∃ et ∈ s.live, et.addr = t ∧ et.cls = some c ∧ t + et.size ≤ s.b.mem.length ∧
+      (∃ cl, u[c]? = some cl ∧ et.size = RG.csize cl) ∧
+      ∀ e' ∈ s.live, e' ≠ et → Alloc.Disjoint (et.addr, et.size) (e'.addr, e'.size) := by
+    rintro c ⟨et, hm, h1, h2⟩
+    refine ⟨et, hm, h1, h2, ?_, hi.wf et hm c h2, fun e' he' hne => RG.live_disj hi hm he' (Ne.symm hne)⟩
+    have := hi.a.inb (et.addr, et.size) (List.mem_map.mpr ⟨et, hm, rfl⟩)
+    have hmm := hi.mem
+    unfold Alloc.Buf.MemOK at hmm
+    simp only at this
+    omega
+  cases fk with
+  | scal => exact absurd rfl hfk
+  | ref c0 =>
+    rcases hr with hr | ⟨t', h1, h2⟩
+    · rw [hr] at hd; simp at hd
+    · rw [h1] at hd; cases hd
+      exact ⟨c0, rfl, fin c0 h2⟩
+  | uref cs =>
+    rcases hr with hr | ⟨t', i, c', h1, h2, h3, h4⟩
+    · rw [hr.1] at hd; simp at hd
+    · rw [h1] at hd; cases hd
+      refine ⟨c', ?_, fin c' h4⟩
+      simp only [RG.refClass, h2]
+      have : (0 : Int) ≤ (i : Int) := Int.natCast_nonneg i
+      simp only [this, ↓reduceIte, Int.toNat_natCast]
+      exact h3
+
+/-- **bind to an object of the same buffer = aliasing**: nothing is allocated (allocator state and the set of live regions are
+unchanged), no byte outside the slot changes, and the reference now denotes that very object (its address, its class) -/
+theorem C08_bind_existing_aliases (u : RG.Univ) (hu : RG.UWF u) (s : RG.St) (hi : RG.Inv u s) (ha k ta : Nat) (h t : RG.Ent)
+    (hh : RG.findObj s ha = some h) (ht : RG.findObj s ta = some t) (fk : RG.FK) (a : Nat)
+    (hf : RG.fieldAt u h k = some (fk, a)) (tc : Nat) (htc : t.cls = some tc)
+    (hmember : fk = .ref tc ∨ ∃ cs, fk = .uref cs ∧ tc ∈ cs) :
+    (RG.bindObj u s ha k ta).b.a = s.b.a ∧ (RG.bindObj u s ha k ta).live = s.live ∧
+    deref (RG.bindObj u s ha k ta).b.mem a = some t.addr ∧ RG.refClass (RG.bindObj u s ha k ta) fk a = some tc ∧
+    ∀ i, (i < a ∨ a + fk.size ≤ i) → (RG.bindObj u s ha k ta).b.mem[i]? = s.b.mem[i]? := by
+  obtain ⟨hm, _, _⟩ := RG.findObj_spec hh
+  obtain ⟨tm, _, _⟩ := RG.findObj_spec ht
+  obtain ⟨_, _, hfit⟩ := RG.slot_in hi hm hf
+  have l1 := RG.live_addr_lt hi hm
+  have l2 := RG.live_addr_lt hi tm
+  have p := RG.FK.size_pos fk
+  rcases hmember with rfl | ⟨cs, rfl, hmem⟩
+  · have e : RG.bindObj u s ha k ta = RG.wr s a (refBytes a t.addr) := by
+      simp only [RG.bindObj, hh, ht, hf, htc, ↓reduceIte]
+    rw [e]
+    have hl : (refBytes a t.addr).length = 8 := by simp [refBytes, i64le_length]
+    refine ⟨rfl, rfl, deref_write_ref _ _ _ (by simpa [RG.FK.size] using hfit) (by omega) (by omega), rfl, ?_⟩
+    intro i hi'
+    simp only [RG.wr]
+    rw [getElem?_writeAt _ _ _ (by rw [hl]; simpa [RG.FK.size] using hfit), hl]
+    have : ¬ (a ≤ i ∧ i < a + 8) := by simp only [RG.FK.size] at hi'; omega
+    simp [this]
+  · have e : RG.bindObj u s ha k ta = RG.wr s a (urefBytes a t.addr (cs.idxOf tc)) := by
+      simp only [RG.bindObj, hh, ht, hf, htc, hmem, ↓reduceIte]
+    rw [e]
+    have hl : (urefBytes a t.addr (cs.idxOf tc)).length = 16 := by simp [urefBytes, refBytes, i64le_length]
+    have hlen := RG.uwf_len hu hf
+    have hidx : cs.idxOf tc < cs.length := List.idxOf_lt_length_of_mem hmem
+    obtain ⟨d1, d2⟩ := uref_write_member s.b.mem a t.addr (cs.idxOf tc) (by simpa [RG.FK.size] using hfit) (by omega) (by omega)
+      (by omega)
+    refine ⟨rfl, rfl, d1, ?_, ?_⟩
+    · simp only [RG.refClass, RG.wr, d2]
+      have : (0 : Int) ≤ ((cs.idxOf tc : Nat) : Int) := Int.natCast_nonneg _
+      simp only [this, ↓reduceIte, Int.toNat_natCast]
+      rw [List.getElem?_eq_getElem hidx]; simp
+    · intro i hi'
+      simp only [RG.wr]
+      rw [getElem?_writeAt _ _ _ (by rw [hl]; simpa [RG.FK.size] using hfit), hl]
+      have : ¬ (a ≤ i ∧ i < a + 16) := by simp only [RG.FK.size] at hi'; omega
+      simp [this]
+
+/-- **bind to plain data or to a foreign object = a new independent object in the holder's buffer**: when `bindVal` does anything, a
+node of the member class was constructed by the holder buffer's allocator (fresh: inside the capacity, sharing no byte with anything
+live before - `C04_alloc` through `RG.newObj_spec`), every node that was live keeps its place, and the invariant holds again -/
+theorem C08_bind_value_fresh (u : RG.Univ) (hu : RG.UWF u) (s : RG.St) (hi : RG.Inv u s) (ha k c : Nat) (vs : List Nat)
+    (hcap : (RG.bindVal u s ha k c vs).b.a.capacity < 2 ^ 62) (hne : RG.bindVal u s ha k c vs ≠ s) :
+    ∃ h fk a o cl, RG.findObj s ha = some h ∧ RG.fieldAt u h k = some (fk, a) ∧ u[c]? = some cl ∧
+      (RG.bindVal u s ha k c vs).live = ⟨o, RG.csize cl, some c⟩ :: s.live ∧
+      deref (RG.bindVal u s ha k c vs).b.mem a = some o ∧ RG.refClass (RG.bindVal u s ha k c vs) fk a = some c ∧
+      o + RG.csize cl ≤ (RG.bindVal u s ha k c vs).b.mem.length ∧
+      (∀ e ∈ s.live, Alloc.Disjoint (o, RG.csize cl) (e.addr, e.size)) ∧
+      RG.Inv u (RG.bindVal u s ha k c vs) := by
+  have hinv := RG.bindVal_inv hu hi ha k c vs hcap
+  rcases RG.bindVal_cases u s ha k c vs with h | ⟨h, fk, a, s1, o, bs, hh, hf, hn, heq, hk⟩
+  · exact absurd h hne
+  · obtain ⟨hm, _, _⟩ := RG.findObj_spec hh
+    have hlive : ∃ sz, s1.live = ⟨o, sz, some c⟩ :: s.live := by
+      unfold RG.newObj at hn
+      split at hn
+      · simp at hn
+      · split at hn
+        · simp at hn
+        · simp only [Prod.mk.injEq, Option.some.injEq] at hn
+          obtain ⟨rfl, rfl⟩ := hn
+          exact ⟨_, rfl⟩
+    obtain ⟨sz, hl⟩ := hlive
+    have hlv : (RG.bindVal u s ha k c vs).live = ⟨o, sz, some c⟩ :: s.live := by rw [heq]; exact hl
+    obtain ⟨cl, hcl, hsz⟩ := hinv.wf ⟨o, sz, some c⟩ (by rw [hlv]; exact List.mem_cons_self) c rfl
+    simp only at hsz
+    subst hsz
+    have hr := hinv.refs h (by rw [hlv]; exact List.mem_cons_of_mem _ hm) k fk a hf
+    have hd : deref (RG.bindVal u s ha k c vs).b.mem a = some o ∧ RG.refClass (RG.bindVal u s ha k c vs) fk a = some c := by
+      rw [heq] at hcap ⊢
+      obtain ⟨hi1, _, hsub, ho⟩ := RG.newObj_spec hi hn (by simpa [RG.wr] using hcap)
+      obtain ⟨_, _, hfit⟩ := RG.slot_in hi1 (hsub h hm) hf
+      have l1 := RG.live_addr_lt hi1 (hsub h hm)
+      have p := RG.FK.size_pos fk
+      rcases hk with ⟨rfl, rfl⟩ | ⟨cs, rfl, hmem, rfl⟩
+      · exact ⟨deref_write_ref _ _ _ (by simpa [RG.FK.size] using hfit) (by omega) ho, rfl⟩
+      · have hlen := RG.uwf_len hu hf
+        have hidx : cs.idxOf c < cs.length := List.idxOf_lt_length_of_mem hmem
+        obtain ⟨d1, d2⟩ := uref_write_member s1.b.mem a o (cs.idxOf c) (by simpa [RG.FK.size] using hfit) (by omega) ho (by omega)
+        refine ⟨d1, ?_⟩
+        simp only [RG.refClass, RG.wr, d2]
+        have : (0 : Int) ≤ ((cs.idxOf c : Nat) : Int) := Int.natCast_nonneg _
+        simp only [this, ↓reduceIte, Int.toNat_natCast]
+        rw [List.getElem?_eq_getElem hidx]; simp
+    refine ⟨h, fk, a, o, cl, hh, hf, hcl, hlv, hd.1, hd.2, ?_, ?_, hinv⟩
+    · have := hinv.a.inb (o, RG.csize cl) (by unfold RG.regions; rw [hlv]; exact List.mem_cons_self)
+      have hmm := hinv.mem
+      unfold Alloc.Buf.MemOK at hmm
+      simp only at this
+      omega
+    intro e he
+    have hp := hinv.a.disj
+    unfold RG.regions at hp
+    rw [hlv] at hp
+    simp only [List.map_cons, List.pairwise_cons] at hp
+    exact hp.1 (e.addr, e.size) (List.mem_map.mpr ⟨e, he, rfl⟩)
+
+/-- **writes through either are visible through both**: the address a reader THROUGH the reference computes for field `j` of the
+referent (decoded slot + class-level offset of the class the reader assumes) IS the address of field `j` of the live original -
+the two handles read and write the same bytes -/
+theorem C08_through_ref_same_address (u : RG.Univ) (s : RG.St) (hi : RG.Inv u s) (h : RG.Ent) (hm : h ∈ s.live)
+    (k : Nat) (fk : RG.FK) (a : Nat) (hf : RG.fieldAt u h k = some (fk, a)) (t c : Nat)
+    (hd : deref s.b.mem a = some t) (hc : RG.refClass s fk a = some c) :
+    ∃ e ∈ s.live, e.addr = t ∧ e.cls = some c ∧
+      ∀ cl j fkj, u[c]? = some cl → cl[j]? = some fkj → RG.fieldAt u e j = some (fkj, t + RG.foff cl j) := by
+  obtain ⟨e, he, hea, hec⟩ := RG.deref_live hi hm hf hd hc
+  refine ⟨e, he, hea, hec, fun cl j fkj hcl hj => ?_⟩
+  rw [← hea]; exact RG.fieldAt_of hec hcl hj
+
+/-- **null**: binding nothing makes the slot read back as null, with member index -1 for a union reference; the invariant holds -/
+theorem C08_bind_null (u : RG.Univ) (s : RG.St) (hi : RG.Inv u s) (ha k : Nat) (h : RG.Ent) (hh : RG.findObj s ha = some h)
+    (fk : RG.FK) (a : Nat) (hf : RG.fieldAt u h k = some (fk, a)) (hfk : fk ≠ .scal) :
+    deref (RG.bindNull u s ha k).b.mem a = none ∧ (∀ cs, fk = .uref cs → memberIdx (RG.bindNull u s ha k).b.mem a = -1) ∧
+    RG.Inv u (RG.bindNull u s ha k) := by
+  obtain ⟨hm, _, _⟩ := RG.findObj_spec hh
+  obtain ⟨_, _, hfit⟩ := RG.slot_in hi hm hf
+  refine ⟨?_, ?_, RG.bindNull_inv hi ha k⟩
+  · cases fk with
+    | scal => exact absurd rfl hfk
+    | ref c => simp only [RG.bindNull, hh, hf, RG.wr]; exact deref_write_null _ _ (by simpa [RG.FK.size] using hfit)
+    | uref cs => simp only [RG.bindNull, hh, hf, RG.wr]; exact (uref_write_null _ _ (by simpa [RG.FK.size] using hfit)).1
+  · rintro cs rfl
+    simp only [RG.bindNull, hh, hf, RG.wr]; exact (uref_write_null _ _ (by simpa [RG.FK.size] using hfit)).2
+
 /-! non-vacuity -/
 example : deref (writeAt (List.replicate 64 0xA5) 8 (refBytes 8 40)) 8 = some 40 := by decide
 example : deref (writeAt (List.replicate 64 0xA5) 40 (refBytes 40 8)) 40 = some 8 := by decide
+
+/-! non-vacuity of the history theorems: a concrete universe and history (aliasing, growth while references exist, a write through a
+reference, a value bound to a union reference, a null) meets the hypotheses, and the reference slots read as claimed -/
+namespace RGEx
+open RG
+def exU : Univ := [[.scal, .scal], [.scal, .ref 0], [.uref [0, 1], .scal, .ref 1]]
+def exOps : List Op := [.new 0 [5, 6], .new 1 [7], .bindObj 16 1 0, .new 2 [9], .bindObj 32 0 16, .bindObj 32 2 16,
+  .alloc 64 true, .setVia 32 2 0 44, .bindVal 32 0 0 [1, 2], .bindNull 32 2, .grow 8]
+def exS : St := exOps.foldl (step exU) (initSt 64 (2 ^ 3) none)
+example : UWF exU := by
+  intro cl hcl fk hfk cs hcs
+  subst hcs
+  simp only [exU, List.mem_cons, List.not_mem_nil, or_false] at hcl
+  rcases hcl with rfl | rfl | rfl
+  all_goals simp at hfk
+  subst hfk; decide
+example : exS.b.a.capacity = 278 ∧ exS.b.a.capacity < 2 ^ 62 := by decide +kernel
+example : readRef exS (.uref [0, 1]) 32 = (some 128, 0) ∧ readRef exS (.ref 1) 56 = (none, 0) ∧
+    readRef exS (.ref 0) 24 = (some 0, 0) ∧ fromLE (readAt exS.b.mem 16 8) = 44 ∧ exS.live.length = 5 := by decide +kernel
+end RGEx
 
 end Lay
